@@ -210,13 +210,18 @@ pub fn gen_case(seed: u64, shard: u64, index: u64) -> TCase {
             // kids that are not dictionaries / not references (among them a stream that calls itself a page)
             let sid = doc.max_num() + 1;
             doc.objects.insert((sid, 0), RObj::Stream(vec![(b"Type".to_vec(), name("Page")), (b"Parent".to_vec(), RObj::Ref(root_id, 0))], b"q Q".to_vec()));
+            // ... and a kid that is a chain of bare references running into a loop that excludes its first link
+            doc.objects.insert((sid + 1, 0), RObj::Ref(sid + 2, 0));
+            doc.objects.insert((sid + 2, 0), RObj::Ref(sid + 3, 0));
+            doc.objects.insert((sid + 3, 0), RObj::Ref(sid + 4, 0));
+            doc.objects.insert((sid + 4, 0), RObj::Ref(sid + 3, 0));
             for id in &ids {
                 if let Some(RObj::Dict(d)) = doc.objects.get_mut(id) {
                     for (kk, v) in d.iter_mut() {
                         if kk == b"Kids" {
                             if let RObj::Array(a) = v {
                                 let at = r.usize_below(a.len() + 1);
-                                let junk = [RObj::Null, RObj::Int(3), RObj::Ref(1, 0), RObj::Ref(999_999, 0), RObj::Array(vec![]), RObj::Ref(sid, 0), RObj::Ref(sid, 0)];
+                                let junk = [RObj::Null, RObj::Int(3), RObj::Ref(1, 0), RObj::Ref(999_999, 0), RObj::Array(vec![]), RObj::Ref(sid, 0), RObj::Ref(sid, 0), RObj::Ref(sid + 1, 0), RObj::Ref(sid + 1, 0)];
                                 a.insert(at, r.pick(&junk).clone());
                             }
                         }
